@@ -535,40 +535,82 @@ func (o *Origins) phi(ph *ssa.Phi) *Ex {
 		if len(steps) == 0 {
 			return init
 		}
-		// all steps of the form phi (+) E  or append(phi, E...)
+		// all steps of the form chain (+) E  or append(chain, E...), where chain is the phi itself or the
+		// header phi of a nested loop that continues the same accumulation
 		var stepEx []*Ex
 		op := ""
 		ok := true
-		for _, s := range steps {
-			s0 := s
-			s = stripPassThroughPhis(s, ph, l)
-			if s != s0 {
-				partial = true // conditional update
-			}
-			switch b := s.(type) {
-			case *ssa.BinOp:
-				if (b.Op == token.ADD || b.Op == token.OR) && b.X == ph {
-					if op != "" && op != b.Op.String() {
-						ok = false
-					}
-					op = b.Op.String()
-					stepEx = append(stepEx, o.Of(b.Y))
+		chain := map[ssa.Value]bool{ph: true}
+		var gather func(vals []ssa.Value, depth int)
+		gather = func(vals []ssa.Value, depth int) {
+			for _, s := range vals {
+				if !ok {
+					return
+				}
+				s0 := s
+				s = stripPassThroughChain(s, chain, l)
+				if s != s0 {
+					partial = true // conditional update
+				}
+				if chain[s] {
 					continue
 				}
-			case *ssa.Call:
-				if bi, isb := b.Call.Value.(*ssa.Builtin); isb && bi.Name() == "append" && len(b.Call.Args) >= 1 && b.Call.Args[0] == ph {
-					if op != "" && op != "append" {
-						ok = false
+				switch b := s.(type) {
+				case *ssa.BinOp:
+					if (b.Op == token.ADD || b.Op == token.OR) && chain[b.X] {
+						if op != "" && op != b.Op.String() {
+							ok = false
+						}
+						op = b.Op.String()
+						stepEx = append(stepEx, o.Of(b.Y))
+						continue
 					}
-					op = "append"
-					for _, a := range b.Call.Args[1:] {
-						stepEx = append(stepEx, o.Of(a))
+				case *ssa.Call:
+					if bi, isb := b.Call.Value.(*ssa.Builtin); isb && bi.Name() == "append" && len(b.Call.Args) >= 1 && chain[b.Call.Args[0]] {
+						if op != "" && op != "append" {
+							ok = false
+						}
+						op = "append"
+						if len(b.Call.Args) == 2 {
+							if elems, isLit := VarArgs(b.Call.Args[1]); isLit {
+								for _, a := range elems {
+									stepEx = append(stepEx, o.Of(a))
+								}
+								continue
+							}
+							stepEx = append(stepEx, mk("spread", "", o.Of(b.Call.Args[1])))
+							continue
+						}
+						for _, a := range b.Call.Args[1:] {
+							stepEx = append(stepEx, o.Of(a))
+						}
+						continue
 					}
-					continue
+				case *ssa.Phi:
+					// header phi of a nested loop whose outside edges all continue the chain
+					if l2 := o.loopOfHeader(b.Block()); l2 != nil && l2 != l && l.Blocks[b.Block()] && depth < 4 {
+						var inner []ssa.Value
+						okOut := true
+						for i, e := range b.Edges {
+							if l2.Blocks[b.Block().Preds[i]] {
+								if e != ssa.Value(b) {
+									inner = append(inner, e)
+								}
+							} else if !chain[e] {
+								okOut = false
+							}
+						}
+						if okOut {
+							chain[b] = true
+							gather(inner, depth+1)
+							continue
+						}
+					}
 				}
+				ok = false
 			}
-			ok = false
 		}
+		gather(steps, 0)
 		if ok && op != "" {
 			if partial {
 				op += "?"
@@ -1162,4 +1204,51 @@ func closureWrites(fn *ssa.Function, fv *ssa.FreeVar, depth int) bool {
 		}
 	}
 	return false
+}
+
+// stripPassThroughChain follows phis inside the loop that merge "value unchanged" (a chain member)
+// with one updated value, as produced by `continue` and conditional updates.
+func stripPassThroughChain(v ssa.Value, chain map[ssa.Value]bool, l *Loop) ssa.Value {
+	for i := 0; i < 4; i++ {
+		p2, ok := v.(*ssa.Phi)
+		if !ok || chain[p2] || !l.Blocks[p2.Block()] {
+			return v
+		}
+		// loop headers are handled by the nested-loop case
+		isHeader := false
+		for _, pr := range p2.Block().Preds {
+			if p2.Block().Dominates(pr) {
+				isHeader = true
+			}
+		}
+		if isHeader {
+			return v
+		}
+		var other ssa.Value
+		n := 0
+		for _, e := range p2.Edges {
+			if chain[e] {
+				continue
+			}
+			other = e
+			n++
+		}
+		if n != 1 {
+			return v
+		}
+		v = other
+	}
+	return v
+}
+
+// ContentAt gives the content of the cell a pointer denotes, as seen just before instruction at.
+func (o *Origins) ContentAt(ptr ssa.Value, at ssa.Instruction) *Ex {
+	root, path := addrRoot(ptr)
+	switch r := root.(type) {
+	case *ssa.Alloc:
+		return o.reaching(r, path, at, at.Block(), instrIndex(at))
+	case *ssa.FreeVar:
+		return o.reaching(r, path, at, at.Block(), instrIndex(at))
+	}
+	return o.pointee(ptr)
 }
